@@ -82,6 +82,24 @@ class LeanLock:
         self.f.close()
 
 
+class TreeLock:
+    """process-lifetime lock on lean/Optyx/Generated (+ the .olean files built from it).
+
+    Every check holds it SHARED from `lean_prepare` until the process exits, so the generated
+    model it proved theorems about is the one its driver runs.  A check that must *change* the
+    generated files (different tree under test, or the source changed) takes it EXCLUSIVE, i.e.
+    waits until no other check is using the files, rewrites and rebuilds, then goes back to
+    shared.  Concurrent checks of the same tree therefore run in parallel; checks of different
+    trees (OPTYX_REPO) are serialised instead of corrupting each other."""
+    f = None
+
+    @classmethod
+    def acquire(cls, mode):
+        if cls.f is None:
+            cls.f = open(os.path.join(LEAN_DIR, ".tree.lock"), "w")
+        fcntl.flock(cls.f, mode)
+
+
 FORBIDDEN = re.compile(r"\b(sorry|admit|native_decide|bv_decide|implemented_by)\b|^axiom |unsafe |maxHeartbeats 0")
 
 
@@ -102,14 +120,23 @@ def grep_forbidden() -> list:
     return hits
 
 
-def lean_prepare(prop_module: str, theorems: list[str]) -> BuildStatus:
+def lean_prepare(prop_module: str, theorems: list[str], _attempt: int = 0) -> BuildStatus:
     """regenerate Generated/*, build the executable model, build the property's proofs,
     audit axioms.  Never raises on a failed build: the status says what broke."""
     st = BuildStatus(theorems=list(theorems))
     t0 = time.time()
+    gen_cmd = [sys.executable, os.path.join(VERIF, "harness", "gen_tables.py"), REPO,
+               os.path.join(LEAN_DIR, "Optyx", "Generated")]
+    TreeLock.acquire(fcntl.LOCK_SH)
+    rc, out = _run(gen_cmd + ["--dry"])
+    try:
+        would_change = rc == 0 and json.loads(out.strip().splitlines()[-1]).get("changed", False)
+    except Exception:
+        would_change = False
+    if would_change:
+        TreeLock.acquire(fcntl.LOCK_EX)  # waits for every other running check to finish
     with LeanLock():
-        rc, out = _run([sys.executable, os.path.join(VERIF, "harness", "gen_tables.py"), REPO,
-                        os.path.join(LEAN_DIR, "Optyx", "Generated")])
+        rc, out = _run(gen_cmd)
         if rc != 0:
             st.gen_ok = False
             st.gen_error = out.strip()[-2000:]
@@ -150,6 +177,17 @@ def lean_prepare(prop_module: str, theorems: list[str]) -> BuildStatus:
             if missing:
                 st.proofs_log += f"\naudit: theorems not found: {missing}\n{out[-1500:]}"
             st.discharged = len([t for t in theorems if t in st.axioms and not (set(st.axioms[t]) - ALLOWED_AXIOMS)])
+    if would_change:
+        # back to shared for the rest of the process; the conversion is not atomic, so make sure
+        # nobody rewrote the generated files in between
+        TreeLock.acquire(fcntl.LOCK_SH)
+        rc, out = _run(gen_cmd + ["--dry"])
+        try:
+            again = rc == 0 and json.loads(out.strip().splitlines()[-1]).get("changed", False)
+        except Exception:
+            again = False
+        if again and _attempt < 5:
+            return lean_prepare(prop_module, theorems, _attempt + 1)
     st.wall_s = time.time() - t0
     return st
 
